@@ -441,17 +441,6 @@ type run struct {
 	rng      *rand.Rand
 	cases    []caseRec
 	distinct map[string]bool
-	fx       string // "true": the implementation has proposed_fixes/C03-endidx.diff (see Audio.seg_loop), else "false"
-}
-
-// probeFixed finds out which of the two versions of createAudioSeg L115 the implementation has:
-// one VoD segment of 4 frames, output interval = frame 1 (starts after the beginning of the segment
-// and ends before its end). As found: error return. Repaired: exactly source frame 1.
-func probeFixed() bool {
-	q := [6]uint64{1024, 2048, 1024, 2048, 0, 0}
-	in := synthIn{Kind: "synth", Counts: []int{4}, F: 1024, A: 48000, R: 48000, D: 4096, Nr: 1, Recipe: &q}
-	o, _, err := synthRun(in)
-	return err == nil && o.cls == 0 && len(o.frames) == 1 && o.frames[0] == 1
 }
 
 func (r *run) add(kind string, input any, heavy bool) string {
@@ -634,6 +623,9 @@ func (r *run) fetchAudio(as *assetState, in l1In, nr int64) audioObs {
 		if ps.NFrag != 1 {
 			c.Fail("", "fragments", fmt.Sprintf("%d fragments", ps.NFrag), in)
 		}
+		if in.Inner {
+			c.Count("l1:inner-interval-served")
+		}
 	case resp.Status == 500:
 		cls = 1
 		if in.Inner {
@@ -649,7 +641,7 @@ func (r *run) fetchAudio(as *assetState, in l1In, nr int64) audioObs {
 	if cls != 9 {
 		var can []int64
 		can = append(can, o.idx...)
-		term := fmt.Sprintf("KSeg %s %d %s %s %s %s %s %s tab_%s canon_%s %d %s %d %s", r.fx, nr, u(in.RefStart), u(in.RefEnd), u(as.D), u(as.R), u(as.F), u(as.A),
+		term := fmt.Sprintf("KSeg %d %s %s %s %s %s %s tab_%s canon_%s %d %s %d %s", nr, u(in.RefStart), u(in.RefEnd), u(as.D), u(as.R), u(as.F), u(as.A),
 			as.d.Name, as.d.Name, cls, u(o.ps.Tfdt), o.ps.Seq, zl(can))
 		var id string
 		if in.NowMS == 0 {
@@ -661,7 +653,7 @@ func (r *run) fetchAudio(as *assetState, in l1In, nr int64) audioObs {
 			if in.Mode == "time" {
 				mode = 1
 			}
-			rterm := fmt.Sprintf("KReq %s vrep_%s %d %d %s %s tab_%s canon_%s %d %s %d %d %s %d %s", r.fx, as.d.Name, as.D*1000/as.R, in.StartNr,
+			rterm := fmt.Sprintf("KReq vrep_%s %d %d %s %s tab_%s canon_%s %d %s %d %d %s %d %s", as.d.Name, as.D*1000/as.R, in.StartNr,
 				u(as.F), u(as.A), as.d.Name, as.d.Name, mode, u(in.SegID), in.NowMS, cls, u(o.ps.Tfdt), o.ps.Seq, zl(can))
 			id = r.add(rterm, in, true)
 			c.Count("l1:request-model:" + in.Mode)
@@ -1052,8 +1044,8 @@ func (r *run) synthCase(in synthIn) {
 	var id string
 	if in.Recipe != nil {
 		q := *in.Recipe
-		id = r.add(fmt.Sprintf("KCreate %s %d %s (Build_recipe %d %s %s %s %s %s) %d %s %d %s",
-			r.fx, in.F, coqTabOf(segs), in.Nr, u(q[0]), u(q[1]), u(q[2]), u(q[3]), u(q[4]), o.cls, u(o.tfdt), o.seq, zl(o.frames)), in, true)
+		id = r.add(fmt.Sprintf("KCreate %d %s (Build_recipe %d %s %s %s %s %s) %d %s %d %s",
+			in.F, coqTabOf(segs), in.Nr, u(q[0]), u(q[1]), u(q[2]), u(q[3]), u(q[4]), o.cls, u(o.tfdt), o.seq, zl(o.frames)), in, true)
 		c.Count(fmt.Sprintf("l2:createAudioSeg-arbitrary-recipe:class%d", o.cls))
 		return
 	}
@@ -1061,7 +1053,7 @@ func (r *run) synthCase(in synthIn) {
 	expStart, expEnd, expIdx := expectedFrames(in.RefStart, in.RefEnd, in.D, R, F, A, total)
 	w0 := ceilFrame(in.RefStart/in.D*in.D, R, F, A)
 	in.Inner = innerInterval(segs, expStart-w0, expEnd-w0)
-	id = r.add(fmt.Sprintf("KSeg %s %d %s %s %s %s %d %s %s [] %d %s %d %s", r.fx, in.Nr, u(in.RefStart), u(in.RefEnd), u(in.D), u(R), in.F, u(A),
+	id = r.add(fmt.Sprintf("KSeg %d %s %s %s %s %d %s %s [] %d %s %d %s", in.Nr, u(in.RefStart), u(in.RefEnd), u(in.D), u(R), in.F, u(A),
 		coqTabOf(segs), o.cls, u(o.tfdt), o.seq, zl(o.frames)), in, true)
 	kind := "straddling-or-malformed"
 	// oracle, where the property speaks: well-formed table, reference segment inside one loop, table reaches the start
@@ -1095,6 +1087,8 @@ func (r *run) synthCase(in synthIn) {
 			pad := len(expIdx) > 0 && expIdx[len(expIdx)-1] == total-1 && len(expIdx) > 1 && expIdx[len(expIdx)-2] == total-1
 			if pad {
 				kind = "wellformed-padded"
+			} else if in.Inner {
+				kind = "wellformed-inner-interval"
 			}
 			r.distinct[fmt.Sprint("synth|", in.Counts, in.F, in.A, in.R, in.D, in.RefStart, in.RefEnd)] = true
 		}
@@ -1476,15 +1470,7 @@ func runC03(c *lib.Ctx) error {
 	if err != nil {
 		return err
 	}
-	r := &run{c: c, rng: rand.New(rand.NewSource(c.Seed)), distinct: map[string]bool{}, fx: "false"}
-	if probeFixed() {
-		r.fx = "true"
-		c.Count("probe:createAudioSeg-L115-repaired")
-		c.Res.Notes = append(c.Res.Notes, "probe: the implementation has createAudioSeg L115 with endIdx = startIdx + count (proposed_fixes/C03-endidx.diff); the model runs as audio_segment true (theorem C03_frames_fixed)")
-	} else {
-		c.Count("probe:createAudioSeg-L115-as-found")
-		c.Res.Notes = append(c.Res.Notes, "probe: the implementation has createAudioSeg L115 as found (endIdx = count); the model runs as audio_segment false (theorems C03_frames under ref_not_inner, C03_inner_fails)")
-	}
+	r := &run{c: c, rng: rand.New(rand.NewSource(c.Seed)), distinct: map[string]bool{}}
 	if c.Replay != "" {
 		return replayC03(c, r, e)
 	}
